@@ -263,6 +263,35 @@ def run(ctx):
                 ck.ob("C10-R8", pl, "a-known-token-yields-exactly-one-device-entry", len(pushes) == 1 and dev in ("Keyboard", "Tablet"))
             else:
                 ck.ob("C10-R8", pl, "an-unknown-token-yields-nothing", not pushes)
+    if not ok_shape and not lps:
+        # registry.events.iter().filter_map(|event| match event.token() { KEYBOARD => Some(..), .. => None }).collect()
+        fm = None
+        for p in mir.walk_function(b):
+            for e in p.events:
+                if e.kind == "call" and mir.method_name(e.a) == "collect" and isinstance(e.b[0], tuple) and e.b[0][0] == "call" and mir.method_name(e.b[0][1]) == "filter_map":
+                    fm = e.b[0]
+        if fm is not None and isinstance(fm[2][0], tuple) and (fm[2][0][0] == "iter" or (fm[2][0][0] == "call" and mir.method_name(fm[2][0][1]) == "iter")) \
+                and "Events" in show(fm[2][0]) and isinstance(fm[2][1], tuple) and fm[2][1][0] == "closure":
+            ok_shape = True
+            ck.ob("C10-R8", pl, "every-readiness-event-of-the-wake-up-is-looked-at", True, detail=show(fm[2][0])[:80])
+            evt = T("fmelem", fm[2][0])
+            cps, cb = mir.walk_closure(ctx.body, fm[2][1], param_terms=[evt])
+            for q in cps:
+                if q.outcome[0] != "return":
+                    continue
+                gs = [(e.a, e.b) for e in q.events if e.kind == "guard"]
+                only_token = all(isinstance(a, tuple) and any(isinstance(s_, tuple) and s_[:2] == ("call", "mio::event::Event::token") for s_ in mir.subterms(a)) for a, v in gs)
+                ck.ob("C10-R8", pl, "an-event-is-classified-by-its-token-alone", only_token and len(gs) == 1,
+                      detail=None if (only_token and len(gs) == 1) else "conditions: %s" % [(show(a)[:50], v) for a, v in gs][:3])
+                r = q.outcome[1]
+                dev = None
+                if isinstance(r, tuple) and r[0] == "agg" and r[2] == "Some" and isinstance(r[3][0], tuple) and r[3][0][0] == "agg":
+                    dev = r[3][0][2]
+                if gs and isinstance(gs[0][1], int) and not isinstance(gs[0][1], bool):
+                    tokens[gs[0][1]] = dev
+                    ck.ob("C10-R8", pl, "a-known-token-yields-exactly-one-device-entry", dev in ("Keyboard", "Tablet"))
+                else:
+                    ck.ob("C10-R8", pl, "an-unknown-token-yields-nothing", isinstance(r, tuple) and r[0] == "agg" and r[2] == "None")
     ck.ob("C10-R8", pl, "one-loop-over-the-events", ok_shape)
     # registration uses the same tokens for the same descriptors
     rb = ctx.body(rp)
@@ -283,7 +312,7 @@ def run(ctx):
     # the wake-up is reported as DeviceEvent exactly when some device entry was produced
     kinds = {}
     for p in mir.walk_function(b):
-        if p.outcome[0] != "return" or not any(e.kind == "loop" for e in p.events):
+        if p.outcome[0] != "return" or not (any(e.kind == "loop" for e in p.events) or any(e.kind == "call" and mir.method_name(e.a) == "collect" for e in p.events)):
             continue
         emp = [e.b for e in p.events if e.kind == "guard" and isinstance(e.a, tuple) and e.a[0] == "empty"]
         r = p.outcome[1]
